@@ -43,7 +43,8 @@ TRUSTED = ["tools/props/c03.py printers (expression -> text with alternating bra
 
 PRACTICE = os.path.join(impl.REPO, "tests", "practice")
 OPENS = "Open Scope string_scope.\nOpen Scope Z_scope."
-CONFIRM_S = 40
+CONFIRM_S = 25
+HANGS = {"real": 0}      # watchdog expiries reproduced serially with the long limit in this run
 
 
 # ---------------------------------------------------------------------------------------------
@@ -244,12 +245,11 @@ def part_model(rep, rng, tier):
     cases = [(k, ss, False) for k, ss in cases] + [(k + "+link", ss, True) for k, ss in cases]
     jobs = [(([("t.mac", prog_text(ss, lk))],), {"watchdog": 8}) for _, ss, lk in cases]
     outs = impl.pmap("assemble", jobs)
-    real = 0
     for k, o in enumerate(outs):      # a watchdog expiry on a loaded machine is not yet a hang: confirm serially
-        if o["outcome"] == "hang" and real < 3:
+        if o["outcome"] == "hang" and HANGS["real"] < 2:
             outs[k] = impl.assemble(jobs[k][0][0], watchdog=CONFIRM_S)
             if outs[k]["outcome"] == "hang":
-                real += 1
+                HANGS["real"] += 1
     terms, keep = [], []
     for (kind, ss, lk), o in zip(cases, outs):
         rep.add_eval()
@@ -330,13 +330,13 @@ def run_pairs(rep, label, groups, watchdog=8):
             if canon(ov) != canon(ob):
                 bad.append((g, desc, files, fs, ob, ov))
     # a watchdog expiry on a loaded machine is not yet a hang: confirm serially with a long limit
-    confirmed, real, spurious = [], 0, 0
+    confirmed, spurious = [], 0
     for item in bad:
         g, desc, files, fs, ob, ov = item
         if "hang" not in (ob["outcome"], ov["outcome"]):
             confirmed.append(item)
             continue
-        if real >= 2:             # two expiries were reproduced with the long limit: the rest are taken as they are
+        if HANGS["real"] >= 2:    # two expiries were reproduced with the long limit: the rest are taken as they are
             confirmed.append(item)
             continue
         ob2 = impl.assemble(g["base"][0], fs=g["base"][1], watchdog=CONFIRM_S)
@@ -344,7 +344,7 @@ def run_pairs(rep, label, groups, watchdog=8):
         if canon(ob2) != canon(ov2):
             confirmed.append((g, desc, files, fs, ob2, ov2))
             if "hang" in (ob2["outcome"], ov2["outcome"]):
-                real += 1
+                HANGS["real"] += 1
         else:
             spurious += 1
     if spurious:
@@ -704,6 +704,7 @@ def metamorphic(rep, rng, tier, scale=1):
 def explore(rep, br, tier, seed):
     rng = random.Random(seed)
     impl.load()
+    HANGS["real"] = 0
     g3 = metamorphic(rep, rng, tier)
     # sanity of the chain programs: the canonical variant assembles
     jobs = [((g["base"][0],), {"fs": g["base"][1], "watchdog": 30}) for g in g3]
